@@ -233,7 +233,9 @@ func (c *FnCtx) doStore(st *State, x *ssa.Store) bool {
 	if av.A == nil {
 		c.safety(st, x, "nilderef", not(eq(av.S, "0")), "store through non-nil pointer")
 	}
-	if kindOf(a.T) == KArray && a.Space == "M" {
+	if kindOf(a.T) == KArray && a.Space == "M" && a.Key != elemKey(a.T) {
+		// a row of elements addressed through a pointer to an array; a slice element of array type
+		// (a.Key == elemKey(a.T)) is one opaque cell and is stored like any scalar
 		c.note("array value store abstracted")
 		return true
 	}
@@ -270,7 +272,7 @@ func (c *FnCtx) unop(st *State, x *ssa.UnOp) bool {
 		if v.A == nil {
 			c.safety(st, x, "nilderef", not(eq(v.S, "0")), "load through non-nil pointer")
 		}
-		if kindOf(a.T) == KArray && a.Space == "M" {
+		if kindOf(a.T) == KArray && a.Space == "M" && a.Key != elemKey(a.T) {
 			c.note("array value load abstracted")
 			st.env[x] = c.freshVal(st, x.Type(), "arrload")
 			return true
@@ -435,13 +437,31 @@ func (c *FnCtx) keyTerm(st *State, k Val) string {
 		sorts = append(sorts, leafSort(leaf.K))
 	})
 	fn := sym("pack|" + typeName(k.T))
-	c.declareFun(fn, sorts, "Int")
 	t := "(" + fn + " " + strings.Join(leaves, " ") + ")"
-	for i, l := range leaves {
+	if c.declared[fn] {
+		return t
+	}
+	c.declareFun(fn, sorts, "Int")
+	// injectivity, stated once as a quantified axiom (the key may be built from bound variables of a
+	// specification, so per-use ground facts would leave those variables free)
+	var bound, names []string
+	for i := range leaves {
+		n := fmt.Sprintf("x%d", i)
+		names = append(names, n)
+		bound = append(bound, "("+n+" "+sorts[i]+")")
+	}
+	app := "(" + fn + " " + strings.Join(names, " ") + ")"
+	var eqs []string
+	for i := range leaves {
 		un := sym(fmt.Sprintf("unpack%d|%s", i, typeName(k.T)))
 		c.declareFun(un, []string{"Int"}, sorts[i])
-		st.assume(eq("("+un+" "+t+")", l))
+		eqs = append(eqs, eq("("+un+" "+app+")", names[i]))
 	}
+	body := eqs[0]
+	if len(eqs) > 1 {
+		body = "(and " + strings.Join(eqs, " ") + ")"
+	}
+	c.addGlobalFact(fmt.Sprintf("(forall (%s) (! %s :pattern (%s)))", strings.Join(bound, " "), body, app))
 	return t
 }
 
